@@ -59,5 +59,20 @@ Extra ==
    Mk("C17/x/computedpath", "top", <<Def1("n", NatLit(7)), WriteS(Bin("+", Bin("+", StrL("f"), Itoa(Var("n"))), StrL(".txt")), StrL("seven")), Print1(ReadE(StrL("f7.txt")))>>),
    Mk("C17/x/readwritten", "top", <<WriteS(StrL("a.txt"), StrL("v1")), Def1("r", ReadE(StrL("a.txt"))), WriteS(StrL("b.txt"), Bin("+", Var("r"), StrL("+"))), WriteS(StrL("a.txt"), StrL("v2")), PrintS(<<Var("r"), ReadE(StrL("a.txt")), ReadE(StrL("b.txt"))>>)>>),
    Mk("C17/x/multiline", "top", <<WriteS(StrL("a.txt"), StrL("l1")), WriteA(StrL("a.txt"), StrL("l2"), Var("yes")), WriteA(StrL("a.txt"), StrL("l3"), BoolL(TRUE)), Def1("r", ReadE(StrL("a.txt"))), PrintS(<<LenE(Var("r")), Var("r")>>)>>)}
-ASSUME ndJsonSerialize("fam.ndjson", SetToSeq(H1 \cup H2 \cup H3 \cup H4 \cup ContCases \cup PathCases \cup Extra))
+\* ONE write statement executed again and again with a flag that changes at run time (round 10: the redirection kept in a variable that was set on an append and
+\* never reset): every sequence of four flags, the statement in a function called four times or in a loop, followed by a plain write to ANOTHER path
+RECURSIVE FSeqs(_)
+FSeqs(n) == IF n = 0 THEN {<<>>} ELSE {<<x>> \o q : x \in BOOLEAN, q \in FSeqs(n - 1)}
+RECURSIVE FName(_)
+FName(q) == IF q = <<>> THEN "" ELSE (IF q[1] THEN "a" ELSE "w") \o FName(Tail(q))
+SiteProg17(q, where) ==
+  LET rd == PrintS(<<StrL("["), ReadE(StrL("a.txt")), StrL("]")>>) IN
+  IF where = "func"
+  THEN <<Func("put", <<Param("s", "string"), Param("app", "bool")>>, <<>>, <<WriteA(StrL("a.txt"), Var("s"), Var("app"))>>)>>
+       \o [i \in 1..(2 * Len(q)) |-> IF i % 2 = 1 THEN ExprS(CallE("put", <<StrL("v" \o ToString((i + 1) \div 2)), BoolL(q[(i + 1) \div 2])>>)) ELSE rd]
+  ELSE <<Def1("flags", SliceLit("bool", [i \in 1..Len(q) |-> BoolL(q[i])])),
+         For3(Def1("i", NatLit(0)), CmpE("<", Var("i"), NatLit(Len(q))), Inc("i"), <<WriteA(StrL("a.txt"), Bin("+", StrL("v"), Itoa(Var("i"))), IndexE(Var("flags"), Var("i"))), rd>>)>>
+SiteHist17 == {[id |-> "C17/site/" \o where \o "/" \o FName(q), prog |-> [body |-> SiteProg17(q, where) \o <<WriteS(StrL("b.txt"), StrL("old")), WriteS(StrL("b.txt"), StrL("new")), PrintS(<<ReadE(StrL("b.txt"))>>)>> \o Final, world |-> World], check |-> <<"fs">>]
+               : q \in FSeqs(4), where \in {"func", "loop"}}
+ASSUME ndJsonSerialize("fam.ndjson", SetToSeq(H1 \cup H2 \cup H3 \cup H4 \cup ContCases \cup PathCases \cup Extra \cup SiteHist17))
 =============================================================================
